@@ -243,6 +243,39 @@ def running_balance(ctx, rng, conn, case, mon):
         ctx.violation('c12.balance_in_condition', 'balance consulted in WHERE is not the sum over all postings scanned so far', case)
 
 
+def constructed_balance(ctx, n, mon):
+    """Directives built directly (postings without metadata, equal postings in a row): balance is the prefix sum all the same."""
+    from beancount.core import inventory
+    from . import c11
+    rng = ctx.rng('constructed', n)
+    led = ledgers.gen_ledger(rng, ntxn=rng.randint(0, 6), with_queries=False)
+    entries, errors, options = led.loaded
+    entries = c11.constructed_entries(rng, entries)
+    conn = engine.connection(ledger=(entries, errors, options))
+    case = {'replay': ['constructed', n], 'ledger': led.text, 'constructed': True, 'digest': f'constructed/{n}'}
+    for sel in ('', 'WHERE account = "Expenses:Food"', 'WHERE account ~ "Food|Cash"', 'WHERE number = 3.50', 'FROM year >= 2000 WHERE currency = "USD"',
+                'WHERE account = "Expenses:Food" ORDER BY date DESC'):
+        text = f'SELECT position, balance, date {sel}'
+        rows = fetch(ctx, conn, text, case)
+        if rows is None:
+            continue
+        ctx.count('obs.constructed_balance_cases')
+        ctx.case((case['digest'], text), len(rows) >= 2)
+        run = inventory.Inventory()
+        # (ORDER BY sorts the finished rows: the balance belongs to the scan order)
+        # (a stable sort by date restores it: rows of one date kept their scan order under ORDER BY date DESC)
+        scan = rows if 'ORDER BY' not in sel else sorted(rows, key=lambda r: r[2])
+        for i, r in enumerate(scan):
+            run.add_position(r[0])
+            if r[1] != run:
+                ctx.violation('c12.balance_not_prefix_sum', f'{text} (constructed directives): row {i} balance = {r[1]} ; prefix sum of position = {run}', dict(case, statement=text))
+                return
+        agg = fetch(ctx, conn, f'SELECT last(balance) AS b, sum(position) AS s {sel.split(" ORDER BY")[0]}', case)
+        if agg and rows and agg[0][0] != agg[0][1]:
+            ctx.violation('c12.last_balance_vs_sum', f'{sel} (constructed directives): last(balance) = {agg[0][0]} ; sum(position) = {agg[0][1]}', dict(case, selection=sel))
+            return
+
+
 def _split_targets(s):
     out, depth, cur = [], 0, ''
     for ch in s:
@@ -353,10 +386,15 @@ def run(ctx):
         if ctx.out_of_time():
             break
         run_case(ctx, n, mon)
+        if n % 3 == 0:
+            constructed_balance(ctx, n, mon)
 
 
 def replay(ctx, case):
     mon = monitors.install()
+    if case['replay'][0] == 'constructed':
+        constructed_balance(ctx, case['replay'][1], mon)
+        return
     if case['replay'][0] == 'twin':
         mon.enabled = True
         twin_sessions(ctx, case['replay'][1], mon)
